@@ -1229,6 +1229,118 @@ Qed.
 Lemma LI_WI b ids ts : LI b [] ids ts -> WI b [] ts.
 Proof.
   intros H i r Hin _ t Ht. destruct (H i t Ht) as (_ & _ & H3 & _).
-  destruct (fin t) eqn:Ef; auto; exfalso;
-    (rewrite H3 in * by (auto; congruence)); apply in_pend_of in Hin; rewrite H3 in Hin by (auto; congruence); destruct Hin.
+  destruct (fin t) eqn:Ef; auto; exfalso; apply in_pend_of in Hin;
+    rewrite H3 in Hin by (auto; congruence); destruct Hin.
+Qed.
+
+Lemma SLI_WI b ts : SLI b [] ts -> WI b [] ts.
+Proof.
+  intros H i r Hin _ t Ht. destruct (H i t Ht) as (_ & _ & _ & H3).
+  destruct (fin t) eqn:Ef; auto; exfalso; apply in_pend_of in Hin;
+    rewrite H3 in Hin by (auto; congruence); destruct Hin.
+Qed.
+
+Lemma keeps_all_app ts t : keeps_all ts (ts ++ [t]).
+Proof.
+  intros j t0 Hj. exists t0. split; [|apply keeps_refl].
+  rewrite nth_error_app1; auto. apply nth_error_Some. congruence.
+Qed.
+
+Lemma w_step_keeps bk w ts : keeps_all ts (w_step bk w ts).
+Proof.
+  destruct w; simpl; apply keeps_all_upd; intros t _;
+    [apply keeps_emit|apply keeps_finish|apply keeps_fail].
+Qed.
+
+(* one event; [Hpoll]: at a poll, the batch returned by fetch only holds results of live trials *)
+Lemma step_keeps bk st e st2 x :
+  tuner_ev e = true ->
+  (forall ids decs ts1 b, e = Poll ids decs -> fetch bk ids (trials st) = (ts1, b) -> WI b [] ts1) ->
+  step bk st e = (st2, x) -> keeps_all (trials st) (trials st2).
+Proof.
+  intros Ht Hpoll F. destruct e as [w|reps|i reps|ids decs|ids|i late|i late]; simpl in *; try discriminate.
+  - inversion F; subst; simpl. apply w_step_keeps.
+  - inversion F; subst; simpl. apply keeps_all_app.
+  - destruct (nth_error (trials st) i) as [t|] eqn:E; [|inversion F; subst; apply keeps_all_refl].
+    destruct (status_eqb (resume_status bk t) Paused); [|inversion F; subst; apply keeps_all_refl].
+    inversion F; subst; simpl. apply keeps_all_upd. intros t0 _. apply keeps_resume.
+  - destruct (ids_ok (trials st) ids); [|inversion F; subst; apply keeps_all_refl].
+    destruct (fetch bk ids (trials st)) as [ts1 b] eqn:Ef.
+    destruct (update_loop bk b decs [] ts1 (out st)) as [[ts2 out2] done2] eqn:Eu.
+    inversion F; subst; simpl. clear F.
+    eapply keeps_all_trans; [eapply fetch_keeps; eauto|].
+    eapply keeps_all_trans; [eapply update_loop_keeps; [|exact Eu]; eapply Hpoll; eauto|].
+    apply observe_keeps.
+Qed.
+
+Lemma keeps_runs t t2 : keeps t t2 -> fin t <> Live -> exists m, runs_of t2 = runs_of t ++ m.
+Proof.
+  intros (_ & K) N. destruct (K N) as [(Sp & Sc & Sd & Sf)|(m & Hm)].
+  - exists []. rewrite app_nil_r. unfold runs_of. congruence.
+  - exists (m ++ [(cur t2, dcur t2, fin t2)]). unfold runs_of at 1. rewrite Hm, app_assoc. reflexivity.
+Qed.
+
+(* generic logic *)
+Lemma generic_poll_WI st ids ts1 b :
+  SI (trials st) -> fetch Generic ids (trials st) = (ts1, b) -> WI b [] ts1.
+Proof.
+  intros H Ef. simpl in Ef. destruct (fetch_generic ids (trials st)) as [ts0 b0] eqn:Ef0.
+  inversion Ef; subst. apply (LI_WI _ ids). apply LI_sort.
+  apply (fetch_generic_LI ids _ [] [] _ _ (SI_LI _ H) Ef0).
+Qed.
+
+Lemma run_keeps_generic evs : forall st st2 x,
+  SI (trials st) -> Forall good_ev evs -> run Generic st evs = (st2, x) -> keeps_all (trials st) (trials st2).
+Proof.
+  induction evs as [|e r IH]; intros st st2 x H Hg F; simpl in F.
+  - inversion F; subst. apply keeps_all_refl.
+  - inversion Hg as [|? ? Hge Hgr]; subst.
+    assert (Hp : forall ids decs ts1 b, e = Poll ids decs -> fetch Generic ids (trials st) = (ts1, b) -> WI b [] ts1).
+    { intros ids decs ts1 b _ Ef. eapply generic_poll_WI; eauto. }
+    destruct (step Generic st e) as [st1 [y|]] eqn:Es.
+    + inversion F; subst. eapply step_keeps; [apply Hge|exact Hp|exact Es].
+    + eapply keeps_all_trans; [eapply step_keeps; [apply Hge|exact Hp|exact Es]|].
+      eapply IH; [|exact Hgr|exact F]. eapply step_SI; eauto.
+Qed.
+
+Theorem generic_decided_run_frozen evs1 evs2 st1 st2 x :
+  Forall good_ev evs1 -> Forall good_ev evs2 ->
+  run Generic init evs1 = (st1, None) -> run Generic st1 evs2 = (st2, x) ->
+  forall i t1, nth_error (trials st1) i = Some t1 -> fin t1 <> Live ->
+    exists t2 m, nth_error (trials st2) i = Some t2 /\ runs_of t2 = runs_of t1 ++ m.
+Proof.
+  intros G1 G2 F1 F2 i t1 Hi N.
+  assert (S1 : SI (trials st1)) by (eapply run_SI; eauto; apply init_SI).
+  destruct (run_keeps_generic _ _ _ _ S1 G2 F2 i t1 Hi) as (t2 & Hi2 & K).
+  destruct (keeps_runs _ _ K N) as (m & Hm). eauto.
+Qed.
+
+(* simulator *)
+Lemma run_keeps_sim evs : forall st st2 x,
+  SSI (trials st) -> run_cov st evs -> run Sim st evs = (st2, x) -> keeps_all (trials st) (trials st2).
+Proof.
+  induction evs as [|e r IH]; intros st st2 x H Hg F; simpl in F, Hg.
+  - inversion F; subst. apply keeps_all_refl.
+  - destruct Hg as (Hge & Hgr).
+    assert (Hp : forall ids decs ts1 b, e = Poll ids decs -> fetch Sim ids (trials st) = (ts1, b) -> WI b [] ts1).
+    { intros ids decs ts1 b -> Ef. simpl in Ef. apply SLI_WI. eapply fetch_sim_SLI; eauto. apply Hge. }
+    destruct (step Sim st e) as [st1 [y|]] eqn:Es.
+    + inversion F; subst. eapply step_keeps; [apply Hge|exact Hp|exact Es].
+    + eapply keeps_all_trans; [eapply step_keeps; [apply Hge|exact Hp|exact Es]|].
+      eapply IH; [|exact Hgr|exact F]. eapply step_SSI; eauto.
+Qed.
+
+Lemma init_SSI : SSI (trials init).
+Proof. intros [|j] t Hj; simpl in Hj; discriminate. Qed.
+
+Theorem sim_decided_run_frozen evs1 evs2 st1 st2 x :
+  run_cov init evs1 -> run Sim init evs1 = (st1, None) ->
+  run_cov st1 evs2 -> run Sim st1 evs2 = (st2, x) ->
+  forall i t1, nth_error (trials st1) i = Some t1 -> fin t1 <> Live ->
+    exists t2 m, nth_error (trials st2) i = Some t2 /\ runs_of t2 = runs_of t1 ++ m.
+Proof.
+  intros G1 F1 G2 F2 i t1 Hi N.
+  assert (S1 : SSI (trials st1)) by (eapply run_SSI; eauto; apply init_SSI).
+  destruct (run_keeps_sim _ _ _ _ S1 G2 F2 i t1 Hi) as (t2 & Hi2 & K).
+  destruct (keeps_runs _ _ K N) as (m & Hm). eauto.
 Qed.
